@@ -34,16 +34,18 @@ theorem getLast?_cons_of_ne_nil (a : UInt8) (l : Bytes) (h : l ≠ []) : (a :: l
 
 theorem typeName_last (n : Bytes) : (Enc.typeName n).getLast? ≠ some 42 := by
   unfold Enc.typeName Enc.escapeIdent
-  by_cases h : n.all Enc.inTail = true
+  by_cases h : (n.all Enc.inTail && !Enc.digitLedJunk n) = true
   · simp only [h, if_true]
+    have h' : n.all Enc.inTail = true := by
+      simp only [Bool.and_eq_true] at h; exact h.1
     cases hn : n with
     | nil => simp
     | cons a r =>
       rw [getLast?_cons_of_ne_nil _ _ (by simp)]
       intro hl
       have hm := List.mem_of_getLast? hl
-      rw [hn] at h
-      have := List.all_eq_true.mp h 42 hm
+      rw [hn] at h'
+      have := List.all_eq_true.mp h' 42 hm
       exact absurd this (by decide)
   · simp only [h, if_false, Bool.false_eq_true]
     rw [getLast?_cons_of_ne_nil _ _ (by simp)]
